@@ -137,6 +137,23 @@ def run(ctx):
                 ctx.fail(f"not-well-formed:{rr['lang']}", key, observed=rr)
         if ob['reopen'] != 'ok':
             ctx.fail('empty-array-unopenable-after-running-code', key, observed=ob['reopen'])
+    # a stale handle after the directory was re-created; a directory without README.txt
+    extra = [dict(first=['float64', [6]], second=['uint16', [2, 3]]), dict(first=['uint16', [2, 3]], second=['float64', [6]]),
+             dict(first=['int32', [6]], second=['complex64', [6]]), dict(first=['>f4', [3, 2]], second=['int64', [6]])]
+    for case, ob in zip(extra, ctx.run_impl(extra, 'stale_and_tidy')):
+        key = dict(kind='re-created / tidied directory', first=case['first'], second=case['second'])
+        if 'harness_error' in ob:
+            ctx.fail('harness-error', key, observed=ob); continue
+        ctx.seen(key); ctx.count('stale-and-tidy')
+        ctx.evaluations += 2 + len(ob['tidy'])
+        for who in ('stale', 'fresh'):
+            if 'error' in ob[who] or ob[who]['listed'] != ob[who]['offered']:
+                ctx.fail(f'readcodelanguages-differs-from-offered:{who}-handle', key,
+                         expected='readcodelanguages lists exactly the languages readcode() gives code for',
+                         observed=ob[who])
+        for t in ob['tidy']:
+            if t['kind'] or not t['unchanged']:
+                ctx.fail(f"tidied-directory:{t['lang']}", key, expected='the code runs and changes no file', observed=t)
     if keep:
         for j in (7, len(keep) // 2, -2):
             ctx.sample(dict(case=keep[j][0], text=keep[j][1]))
